@@ -62,6 +62,15 @@ theorem Instruction.exec_of_try_error {i : Instruction} {st name e} (m : Attribu
 @[simp] theorem ExecutionCtx.addExecutionBranch_withContent (ctx : ExecutionCtx) (b : ExecutionBranch) :
     (ctx.addExecutionBranch b).withContent = ctx.withContent := rfl
 
+@[simp] theorem ExecutionCtx.addExecutionBranch_childCounter (ctx : ExecutionCtx) (b : ExecutionBranch) :
+    (ctx.addExecutionBranch b).stackItem.childCounter = ctx.stackItem.childCounter := by
+  unfold ExecutionCtx.addExecutionBranch
+  cases ctx.withContent <;> cases b.jumps <;> cases b.hereditaryJumps <;> rfl
+
+@[simp] theorem ExecutionCtx.addOpt_childCounter (ctx : ExecutionCtx) (b : Option ExecutionBranch) :
+    (ctx.addOpt b).stackItem.childCounter = ctx.stackItem.childCounter := by
+  cases b <;> simp [ExecutionCtx.addOpt]
+
 @[simp] theorem ExecutionCtx.addOpt_localName (ctx : ExecutionCtx) (b : Option ExecutionBranch) :
     (ctx.addOpt b).stackItem.localName = ctx.stackItem.localName := by
   cases b <;> simp [ExecutionCtx.addOpt]
@@ -74,20 +83,22 @@ theorem Instruction.exec_of_try_error {i : Instruction} {st name e} (m : Attribu
     (ctx.addOpt b).withContent = ctx.withContent := by
   cases b <;> simp [ExecutionCtx.addOpt]
 
-/-- the three read-only fields -/
+/-- the read-only fields -/
 def ExecutionCtx.SameFrame (a b : ExecutionCtx) : Prop :=
-  a.stackItem.localName = b.stackItem.localName ∧ a.ns = b.ns ∧ a.withContent = b.withContent
+  a.stackItem.localName = b.stackItem.localName ∧ a.ns = b.ns ∧ a.withContent = b.withContent ∧
+    a.stackItem.childCounter = b.stackItem.childCounter
 
-theorem ExecutionCtx.SameFrame.rfl' (a : ExecutionCtx) : a.SameFrame a := ⟨rfl, rfl, rfl⟩
+theorem ExecutionCtx.SameFrame.rfl' (a : ExecutionCtx) : a.SameFrame a := ⟨rfl, rfl, rfl, rfl⟩
 
 theorem ExecutionCtx.SameFrame.trans {a b c : ExecutionCtx} (h₁ : a.SameFrame b) (h₂ : b.SameFrame c) :
-    a.SameFrame c := ⟨h₁.1.trans h₂.1, h₁.2.1.trans h₂.2.1, h₁.2.2.trans h₂.2.2⟩
+    a.SameFrame c :=
+  ⟨h₁.1.trans h₂.1, h₁.2.1.trans h₂.2.1, h₁.2.2.1.trans h₂.2.2.1, h₁.2.2.2.trans h₂.2.2.2⟩
 
 theorem ExecutionCtx.sameFrame_addOpt (ctx : ExecutionCtx) (b : Option ExecutionBranch) :
-    (ctx.addOpt b).SameFrame ctx := ⟨by simp, by simp, by simp⟩
+    (ctx.addOpt b).SameFrame ctx := ⟨by simp, by simp, by simp, by simp⟩
 
 theorem ExecutionCtx.sameFrame_add (ctx : ExecutionCtx) (b : ExecutionBranch) :
-    (ctx.addExecutionBranch b).SameFrame ctx := ⟨by simp, by simp, by simp⟩
+    (ctx.addExecutionBranch b).SameFrame ctx := ⟨by simp, by simp, by simp, by simp⟩
 
 /-! ## bail-out and recovery vs. running everything with attributes -/
 
@@ -368,4 +379,86 @@ theorem Vm.execWithoutAttrs_resume (vm : Vm) (ctx : ExecutionCtx) (aux : AuxStar
             | none =>
               simp only [] at h3
               simp [h3, pure, Except.pure, StartTagOutcome.resume]
+/-! ## `handle_start_tag` as one with-attributes pass -/
+
+theorem Vm.execInstrSetWithAttrs_sameFrame (vm : Vm) (r m) (ctx ctx' : ExecutionCtx) (off)
+    (h : vm.execInstrSetWithAttrs r m ctx off = .ok ctx') : ctx'.SameFrame ctx :=
+  Vm.execAddrs_sameFrame vm _ m _ ctx ctx' h
+
+theorem Vm.execSetsWithAttrs_sameFrame (vm : Vm) (m) : ∀ (sets : List AddressRange) (ctx ctx' : ExecutionCtx),
+    vm.execSetsWithAttrs m sets ctx = .ok ctx' → ctx'.SameFrame ctx := by
+  intro sets
+  induction sets with
+  | nil => intro ctx ctx' h; simp [Vm.execSetsWithAttrs, pure, Except.pure] at h; subst h; exact .rfl' _
+  | cons r rest ih =>
+    intro ctx ctx' h
+    simp only [Vm.execSetsWithAttrs, bind, Except.bind] at h
+    split at h
+    · cases h
+    · rename_i c hc
+      exact (ih _ _ h).trans (Vm.execInstrSetWithAttrs_sameFrame vm r m ctx c 0 hc)
+
+theorem Vm.execSetsFromPtr_sameFrame (vm : Vm) (m) (sets : List AddressRange) (ctx ctx' : ExecutionCtx) (ptr)
+    (h : vm.execSetsFromPtr m sets ctx ptr = .ok ctx') : ctx'.SameFrame ctx := by
+  unfold Vm.execSetsFromPtr at h
+  split at h
+  · simp only [bind, Except.bind] at h
+    split at h
+    · cases h
+    · rename_i c hc
+      exact (Vm.execSetsWithAttrs_sameFrame vm m _ _ _ h).trans
+        (Vm.execInstrSetWithAttrs_sameFrame vm _ m ctx c _ hc)
+  · simp [pure, Except.pure] at h; subst h; exact .rfl' _
+
+theorem Vm.execAllWithAttrs_sameFrame (vm : Vm) (m) (ctx ctx' : ExecutionCtx)
+    (h : vm.execAllWithAttrs m ctx = .ok ctx') : ctx'.SameFrame ctx := by
+  simp only [Vm.execAllWithAttrs, bind, Except.bind] at h
+  split at h
+  · cases h
+  · rename_i c1 h1
+    split at h
+    · cases h
+    · rename_i c2 h2
+      exact ((Vm.execSetsFromPtr_sameFrame vm m _ _ _ _ h).trans
+        (Vm.execSetsFromPtr_sameFrame vm m _ _ _ _ h2)).trans
+        (Vm.execInstrSetWithAttrs_sameFrame vm _ m ctx c1 0 h1)
+
+/-- the `ExecutionCtx` a start tag begins with; `with_content` is decided by the stack directive
+    (and, in foreign content, by the self-closing flag) -/
+def startCtx (t : StartTag) (enableEsiTags : Bool) : ExecutionCtx :=
+  { stackItem := { localName := t.name }, withContent := Spec.Css.staysOpen t enableEsiTags, ns := t.ns }
+
+theorem Vm.handleStartTag_eq_bind (vm : Vm) (t : StartTag) :
+    vm.handleStartTag t = (vm.execForStartTag t.name t.ns >>= StartTagOutcome.resume ⟨t.attrs, t.selfClosing⟩) := by
+  unfold Vm.handleStartTag
+  congr
+
+/-- Whatever path is taken (no request, immediate request, one of the three bail-outs), handling a
+    start tag is: count the child, run every reachable instruction with the attributes, report, push. -/
+theorem Vm.handleStartTag_eq (vm : Vm) (t : StartTag) :
+    vm.handleStartTag t =
+      (do let vm1 := { vm with stack := vm.stack.addChild t.name }
+          let ctx' ← vm1.execAllWithAttrs ⟨t.attrs, t.ns == .html⟩ (startCtx t vm.enableEsiTags)
+          pure (vm1.finish ctx')) := by
+  rw [Vm.handleStartTag_eq_bind]
+  unfold Vm.execForStartTag getStackDirective
+  by_cases hns : t.ns = .html
+  · simp only [hns, beq_self_eq_true, if_true]
+    by_cases hv : isVoidElement t.name vm.enableEsiTags = true
+    · simp only [hv, if_true]
+      rw [Vm.execWithoutAttrs_resume]
+      simp [startCtx, Spec.Css.staysOpen, hns, hv]
+    · have hv' : isVoidElement t.name vm.enableEsiTags = false := by simpa using hv
+      simp only [hv', Bool.false_eq_true, if_false]
+      rw [Vm.execWithoutAttrs_resume]
+      simp [startCtx, Spec.Css.staysOpen, hns, hv']
+  · have : (t.ns == Ns.html) = false := by simp [hns]
+    simp only [this]
+    simp [bind, Except.bind, pure, Except.pure, StartTagOutcome.resume, Pending.resume,
+      Vm.execAfterImmediateAuxInfoRequest, Vm.execAllWithAttrs, startCtx, Spec.Css.staysOpen, this]
+    split
+    · rfl
+    · split
+      · rfl
+      · split <;> rfl
 end LolHtml.SelVM
